@@ -27,7 +27,7 @@ Sig(r) == [fam |-> "showtable",
 \* ---- diagnostic: drift of the real observations from the implementation-shaped model
 RangeOf(s) == {s[i] : i \in 1..Len(s)}
 Modelled(r) == r.known /\ r.type \in TypeClasses /\ r.ctx \in AllCtxs
-DriftSet(r) ==
+DriftSet(m, r) ==
   IF ~Modelled(r) THEN {"unmodelled"}
   ELSE LET d == Desc(r.type) z == (r.val = "zero") IN
        (IF d.kind # r.kind \/ d.impl # RangeOf(r.impl) THEN {"descriptor"} ELSE {}) \cup
@@ -38,9 +38,9 @@ DriftSet(r) ==
             ELSE
             (IF o.builds \in {"ok", "builderror"} /\ (o.astctx # CtxOf(r.ctx)[1] \/ o.url # CtxOf(r.ctx)[2])
                THEN {"ctx:" \o o.box} ELSE {}) \cup
-            (IF o.builds \in {"ok", "builderror"} /\ Built(o) # CheckShow(CtxOf(r.ctx)[1], stat)
+            (IF o.builds \in {"ok", "builderror"} /\ Built(o) # CheckShow(m, CtxOf(r.ctx)[1], stat)
                THEN {"B:" \o o.box} ELSE {}) \cup
-            (IF Built(o) /\ o.runerr \in {"none", "cannotshow"} /\ ShowFailed(o) # ModelR(r.ctx, r.type, z)
+            (IF Built(o) /\ o.runerr \in {"none", "cannotshow"} /\ ShowFailed(o) # ModelR(m, r.ctx, r.type, z)
                THEN {"R:" \o o.box} ELSE {})
          : i \in 1..Len(r.o)}
 
@@ -50,7 +50,8 @@ Obs == ndJsonDeserialize("obs.ndjson")
 Init == l = 1 /\ nbad = 0
 Next == l <= Len(Obs) /\ l' = l + 1 /\ nbad' = nbad + (IF RecOk(Obs[l]) THEN 0 ELSE 1)
 BadIdx == SelectSeq([i \in 1..Len(Obs) |-> i], LAMBDA i : ~RecOk(Obs[i]))
-DriftIdx == SelectSeq([i \in 1..Len(Obs) |-> i], LAMBDA i : DriftSet(Obs[i]) # {})
+DriftIdx == SelectSeq([i \in 1..Len(Obs) |-> i], LAMBDA i : DriftSet(AsIs, Obs[i]) # {})
+DriftIntended == Cardinality({i \in 1..Len(Obs) : DriftSet(Intended, Obs[i]) # {}})
 Done == l = Len(Obs) + 1 =>
           /\ ndJsonSerialize("bad.ndjson",
                IF nbad = 0 THEN <<>>
@@ -59,10 +60,10 @@ Done == l = Len(Obs) + 1 =>
           /\ ndJsonSerialize("drift.ndjson",
                [j \in 1..(IF Len(DriftIdx) < 4000 THEN Len(DriftIdx) ELSE 4000) |->
                   [k |-> DriftIdx[j], id |-> Obs[DriftIdx[j]].id, ctx |-> Obs[DriftIdx[j]].ctx, type |-> Obs[DriftIdx[j]].type,
-                   val |-> Obs[DriftIdx[j]].val, what |-> SetToSeq(DriftSet(Obs[DriftIdx[j]]))]])
+                   val |-> Obs[DriftIdx[j]].val, what |-> SetToSeq(DriftSet(AsIs, Obs[DriftIdx[j]]))]])
           /\ ndJsonSerialize("stats.ndjson",
                <<[records |-> Len(Obs),
                   ref_undefined |-> Cardinality({i \in 1..Len(Obs) : ~Defined(Obs[i])}),
-                  drift |-> Len(DriftIdx)]>>)
+                  drift |-> Len(DriftIdx), drift_vs_intended |-> DriftIntended]>>)
 Consumed == TLCGet("stats").diameter - 1 = Len(Obs)
 =============================================================================
